@@ -647,7 +647,7 @@ class TermCanvas(Canvas):
 
         byte -- an integer ordinal
         """
-        if self.modes.main_charset == CHARSET_UTF8 or util.get_encoding() == "utf8":
+        if self.modes.main_charset == CHARSET_UTF8 or util.get_encoding_mode() == "utf8":
             if byte >= 0xC0:
                 # start multibyte sequence
                 self.utf8_eat_bytes = self.get_utf8_len(byte)
